@@ -137,6 +137,24 @@ def run(chk, facts_dir, tier):
             chk.fail("R2.5", WS + "validate_event_versions", "pending-lookup-predicate", "the search of un-synced entries uses %s instead of a single stream-id equality: a stream written under "
                      "another partition key (or otherwise filtered out) is invisible until the next sync, so the partition-key and version checks are skipped for it" % [(e[0], e[1]) for e in eqs], cb, aggs[0][1]["line"])
     chk.floor("R2.5", n_pl, 2)
+    # R2.7 every arm falls back to the full lookup
+    chk.rule("R2.7", "FULL FALLBACK IN EVERY ARM: in validate_event_versions each first-occurrence arm that searches the un-synced entries falls back to "
+                     "read_stream_latest_version (live index, then every sealed segment) - as many fallback calls as pending lookups - and a StreamLatestVersion is built there only "
+                     "from a pending entry; an arm that consults the live index alone treats a stream that lives in sealed segments as absent (two creators both succeed with Empty)")
+    fam27 = prog.family(WS + "validate_event_versions")
+    n_fb = sum(len(calls(b_, WS + "read_stream_latest_version")) for b_ in fam27)
+    other_slv = []
+    for b_ in fam27:
+        aggs_ = [s_ for i, j, s_ in b_.assigns() if s_["rv"]["k"] == "agg" and s_["rv"]["ak"].endswith("StreamLatestVersion")]
+        if aggs_ and not any("PendingIndex" in l["ty"] for l in b_.locals):
+            other_slv.append((b_, aggs_[0]))
+    if n_fb >= n_pl and not other_slv and n_pl:
+        chk.ok("R2.7", "%d pending lookups, %d fallbacks to read_stream_latest_version, no other source of the current version" % (n_pl, n_fb), vb.where())
+    elif other_slv:
+        chk.fail("R2.7", WS + "validate_event_versions", "version-from-partial-source", "the current stream version is built from something other than a pending entry or "
+                 "read_stream_latest_version: streams that only exist in sealed segments are treated as new", other_slv[0][0], other_slv[0][1]["line"])
+    else:
+        chk.fail("R2.7", WS + "validate_event_versions", "arm-without-fallback", "%d arms search the un-synced entries but only %d fall back to read_stream_latest_version" % (n_pl, n_fb), vb)
     # the partition key mismatch is an error in all four arms
     mism = [s for i, j, s in vb.assigns() if s["rv"]["k"] == "agg" and s["rv"]["ak"].endswith("EventValidationError::PartitionKeyMismatch")]
     # the check may live in a helper (`ensure_same_partition_key(new, existing)?`): each call to a workspace function that builds the error counts as a site
